@@ -217,7 +217,7 @@ CHECKS['C09'] = dict(
     steps=[dict(mode='trk', bin='c09_threads'), dict(mode='tsan', bin='c09_threads')],
     rule='harness: N in {2,3} threads, each gr_face_featureval_for_lang + gr_make_seg on its own text (texts with overlapping glyph sets) + full dump + feature label + is_char_supported + destroy, on ONE cold shared face (gr_face_preloadAll) and ONE shared gr_make_font font; '
          'fonts S-full, small.ttf, Padauk (thorough + Scheherazade, Awami_test, charis) x dir {0,1}. The library is compiled with -fsanitize=thread instrumentation and linked against our own __tsan_* runtime (src/sched/trk_runtime.cpp): every instrumented access is classified private (own stack / own allocation arena) or shared; '
-         'two accesses are dependent iff same 8-byte granule, different threads, at least one write. Run 0 records the access sets; if the dependence relation is empty all interleavings are Mazurkiewicz-equivalent to the executed one (1 schedule class, reported with the event counts); otherwise (and always for the two POSITIVE CONTROL configurations: lazily loading face, advance-callback font) '
+         'two accesses are dependent iff same 8-byte granule, different threads, at least one write. Run 0 records the access sets; if the dependence relation is empty all interleavings are Mazurkiewicz-equivalent to the executed one (1 schedule class, reported with the event counts); otherwise (and always for the POSITIVE CONTROL configurations: lazily loading face, advance-callback font, and - the one that MUST show a conflict, independent of library internals - every thread letting the library write a tag into one caller-supplied buffer) '
          'every schedule with <= 2 preemptions at the dependent accesses is executed under a serialising scheduler from an identical cold state and each thread\'s result is compared with the single-threaded reference. Oracles: empty dependence relation (= no data race, the library has no synchronisation), no table callback during the parallel phase, per-thread result == sequential result. '
          'Cross-check: the same bodies run free 20x under the real ThreadSanitizer',
     state_meaning='states = serialised executions (schedules) performed; transitions = instrumented shared-memory accesses observed (events)',
